@@ -210,12 +210,18 @@ func zeroElemNF(ab *AttrB) interface{} {
 func excludedSnapshot(b *MsgB, sv reflect.Value) []interface{} {
 	var out []interface{}
 	for _, refs := range b.Excluded {
+		last := refs[len(refs)-1]
 		parent, ok := reachEmbedded(sv, refs[:len(refs)-1], false)
 		if !ok {
-			out = append(out, nil)
+			// nil nullable-embedded parent: the field reads as its zero value (allocating the
+			// parent for a sibling does not modify it)
+			if last.oneof != nil {
+				out = append(out, nil)
+			} else {
+				out = append(out, reflect.Zero(last.typ).Interface())
+			}
 			continue
 		}
-		last := refs[len(refs)-1]
 		if last.oneof != nil {
 			// An excluded oneof member shares its holder with the described members: C07
 			// requires the holder to follow those, so "untouched" is not claimed here.
